@@ -477,5 +477,5 @@ pub fn case(tape: &[u8], ctx: &Ctx) -> Outcome {
 }
 
 pub fn property() -> Property {
-    Property { id: "C13", rule: RULE, phases: vec![Phase::Prop { name: "dictionary flows", f: case, quick: 60_000, thorough: 2_000_000, max_tape: 260 }] }
+    Property { id: "C13", rule: RULE, phases: vec![Phase::Prop { name: "dictionary flows", f: case, quick: 500_000, thorough: 5_000_000, max_tape: 260 }] }
 }
